@@ -416,7 +416,8 @@ func (w *PoolWorld) Connect(id *Ident, o ConnectOpts) (*pool.ConnectResponse, er
 		ctx = CtxWith(svc)
 	}
 	n := w.nextNonce()
-	return w.Pool.Connect(ctx, id.SignNode("vipnode_connect", n, req), id.NodeID, n, req)
+	sig := id.SignNode("vipnode_connect", n, req)
+	return Watched("vipnode_connect by "+id.Name, func() (*pool.ConnectResponse, error) { return w.Pool.Connect(ctx, sig, id.NodeID, n, req) })
 }
 
 // Update performs a real signed vipnode_update reporting the given peer ids.
@@ -430,26 +431,71 @@ func (w *PoolWorld) UpdateCtx(ctx context.Context, id *Ident, peers []string, bl
 		req.PeerInfo = append(req.PeerInfo, ethnode.PeerInfo{ID: p})
 	}
 	n := w.nextNonce()
-	return w.Pool.Update(ctx, id.SignNode("vipnode_update", n, req), id.NodeID, n, req)
+	sig := id.SignNode("vipnode_update", n, req)
+	return Watched("vipnode_update by "+id.Name, func() (*pool.UpdateResponse, error) { return w.Pool.Update(ctx, sig, id.NodeID, n, req) })
 }
 
 // Peer performs a real signed vipnode_peer.
 func (w *PoolWorld) Peer(ctx context.Context, id *Ident, num int, kind string) (*pool.PeerResponse, error) {
 	req := pool.PeerRequest{Num: num, Kind: kind}
 	n := w.nextNonce()
-	return w.Pool.Peer(ctx, id.SignNode("vipnode_peer", n, req), id.NodeID, n, req)
+	sig := id.SignNode("vipnode_peer", n, req)
+	return Watched("vipnode_peer by "+id.Name, func() (*pool.PeerResponse, error) { return w.Pool.Peer(ctx, sig, id.NodeID, n, req) })
 }
 
 // AddNode performs a real signed pool_addNode.
 func (w *PoolWorld) AddNode(wallet *Ident, nodeID string) error {
 	n := w.nextNonce()
-	return w.Payment.AddNode(context.Background(), wallet.SignWallet("pool_addNode", n, nodeID), wallet.Wallet, n, nodeID)
+	sig := wallet.SignWallet("pool_addNode", n, nodeID)
+	_, err := Watched("pool_addNode by "+wallet.Name, func() (struct{}, error) {
+		return struct{}{}, w.Payment.AddNode(context.Background(), sig, wallet.Wallet, n, nodeID)
+	})
+	return err
 }
 
 // Withdraw performs a real signed pool_withdraw.
 func (w *PoolWorld) Withdraw(wallet *Ident) error {
 	n := w.nextNonce()
-	return w.Payment.Withdraw(context.Background(), wallet.SignWallet("pool_withdraw", n), wallet.Wallet, n)
+	sig := wallet.SignWallet("pool_withdraw", n)
+	_, err := Watched("pool_withdraw by "+wallet.Name, func() (struct{}, error) {
+		return struct{}{}, w.Payment.Withdraw(context.Background(), sig, wallet.Wallet, n)
+	})
+	return err
+}
+
+// Watched runs one request to the code under test. Under the controlled scheduler it is a plain
+// call (blocking is modelled there). Otherwise the request runs in its own goroutine and a request
+// that has not returned after InvokeWatchdog panics with a description - a wedged request is
+// reported by the unit that sent it instead of hanging the whole worker.
+func Watched[T any](what string, f func() (T, error)) (T, error) {
+	if vsched.Active() {
+		return f()
+	}
+	type out struct {
+		v   T
+		err error
+		pan interface{}
+	}
+	ch := make(chan out, 1)
+	go func() {
+		var o out
+		defer func() {
+			if r := recover(); r != nil {
+				o.pan = r
+			}
+			ch <- o
+		}()
+		o.v, o.err = f()
+	}()
+	select {
+	case o := <-ch:
+		if o.pan != nil {
+			panic(o.pan)
+		}
+		return o.v, o.err
+	case <-time.After(InvokeWatchdog):
+		panic(fmt.Sprintf("request %s never returned (still blocked after %s)", what, InvokeWatchdog))
+	}
 }
 
 // RegistryKey renders the pool's connection registries - every map field of VipnodePool that maps
